@@ -124,6 +124,13 @@ def _outer(v, g):
     return not _inside(v, g)
 
 
+def deep_nodes_of_node(n):
+    out = []
+    for sg in nested_graphs(n):
+        out.extend(deep_nodes(sg))
+    return out
+
+
 def brute_implicit(g):
     """{id(subgraph): (subgraph, set(id(value)))}: values used inside each nested graph or deeper but defined outside it."""
     out = {}
@@ -204,6 +211,34 @@ def execute(case):
                     classes.append("analysis_nested_root_outer_capture")
         except Exception as e:
             fails.append((f"implicit-usage/{tag}raised/{type(e).__name__}", f"analyze_implicit_usage({root.name!r}) raised {type(e).__name__}: {str(e)[:120]}"))
+    # ---- capture analysis with ONE body object placed in two different scopes ---------------------------------
+    if case.get("gattr", 0) % 4 in (2, 3) and not fails:
+        try:
+            m2 = ir.from_proto(inferred)
+            tops = [n for n in m2.graph if n.op_type == "If" and "then_branch" in n.attributes]
+            hosts = [sg for n in m2.graph for sg in nested_graphs(n)]
+            if tops and hosts:
+                a_ = tops[case["outs"][0] % len(tops)]
+                hosts = [sg for sg in hosts if not any(sg is x for x in nested_graphs(a_))]
+                if hosts:
+                    host = hosts[(case["outs"][-1] + case.get("gattr", 0)) % len(hosts)]
+                    shared = a_.attributes["then_branch"].as_graph()
+                    # a second If, inside another node's body, whose then-branch is the very same Graph object
+                    b_ = ir.Node("", "If", [a_.inputs[0]], [ir.AttrGraph("then_branch", shared), ir.AttrGraph("else_branch", a_.attributes["else_branch"].as_graph())],
+                                 num_outputs=1, name="c18_second_if")
+                    b_.outputs[0].name = "c18_second_if_out"
+                    host.append(b_)
+                    got = analysis.analyze_implicit_usage(m2.graph)
+                    exp = brute_implicit(m2.graph)
+                    got_n = {id(sg): {id(v) for v in vals} for sg, vals in got.items()}
+                    classes.append("body_shared_between_scopes")
+                    for sid, (sg, vals) in exp.items():
+                        if got_n.get(sid) != vals:
+                            names = lambda ids: sorted(str(v.name) for v in _values_by_id(m2.graph, ids))
+                            fails.append(("implicit-usage/shared-body/wrong-set", f"one graph object is the then-branch of {a_.name!r} (main graph) and of {b_.name!r} (nested): nested graph {sg.name!r}: reported {names(got_n.get(sid, set()))} expected {names(vals)}"))
+                            break
+        except Exception as e:
+            fails.append((f"implicit-usage/shared-body/raised/{type(e).__name__}", f"analyze_implicit_usage with a shared body raised {type(e).__name__}: {str(e)[:120]}"))
     # ---- extraction ---------------------------------------------------------------------------------------
     g = model.graph
     target = case.get("target", 0) % 6
